@@ -97,11 +97,19 @@ func C05(c *Ctx) {
 	r.Explanation = "(A1) the only route to UndelegateCoinsFromModuleToAccount(enterprise) starts at the CheckLockedUnd ante decorator; (A2) in that decorator the unlock call is guarded (cut-reachability, looking through the detector helpers down to their type assertions) by [tx contains a WRKChain fee-bearing message ∨ a BEACON one] and by a positive locked balance of feeTx.FeePayer(), and receives that payer and feeTx.GetFee(); " +
 		"(A7) the case sets of the tx detectors and of the fee calculators equal the fee-bearing request types of each module's Msg service; (A5) decorator order ValidateBasic < WRKChain fee < BEACON fee < CheckLockedUnd < DeductFee < SigVerification < IncrementSequence; " +
 		"(A2) amount rule: the site undelegating the fee is guarded by ¬hasNeg(locked − fee_d), the site undelegating the whole locked amount by hasNeg(locked − fee_d) ∧ ¬hasNeg(spendable + locked − fee_d), and there is no third site. The mint-route pairing of C04 gives 'completion never raises spendable balance'. Structural necessary conditions; ante rollback on later failure (baseapp) and numeric min(fee, locked) are not decided."
-	r.Rules = []string{"A1.unlock-route", "A2.unlock-guard", "A7.detector-cases", "A7.detector-exhaustive", "A5.decorator-order", "A2.amount-rule", "A3.mint-route-pairing", "A3.lost-update", "A3.stale-element-pointer", "A2.spendable-neutral"}
+	r.Rules = []string{"A1.unlock-route", "A2.unlock-guard", "A7.detector-cases", "A7.detector-exhaustive", "A5.decorator-order", "A2.amount-rule", "A3.mint-route-pairing", "A2.decorator-checks", "A3.counter-pairs", "A3.lost-update", "A3.stale-element-pointer", "A3.element-carry", "A2.spendable-neutral"}
 	// completing an order never increases the purchaser's spendable balance: what is minted for an order is moved into the
 	// escrow and booked as locked, with the same amount at each step, and no update of the books is dropped on a copy
 	mintRoutePairing(c)
 	lostUpdates(c, "enterprise")
+	// "... and passes all pre-execution checks": the WRKChain and BEACON decorators let a module transaction through to
+	// execution only after their affordability and max-slot checks (in every mode, not in CheckTx alone)
+	for _, m := range []string{"wrkchain", "beacon"} {
+		if _, f := feeFunc(c, m); f != nil {
+			decoratorChecks(c, m, f)
+		}
+	}
+	counterPairs(c) // "... which is recorded as spent": the spent total moves with the account's spent counter
 	spendableNeutral(c)
 	r.Trusted = []string{"baseapp discards ante state when a later decorator fails", "sdk.Coins.SafeSub hasNeg semantics", "bank vesting/delegation bookkeeping"}
 	r.NotDecided = []string{"nested (authz/group/gov) execution of WRKChain/BEACON messages bypasses the ante chain (see C06 known finding K1)", "numeric min(fee, locked)"}
